@@ -24,6 +24,16 @@ func c11(c *Check) {
 	c.Rule("C11/one-backing-per-contract-and-denomination", "what keeps each pair's backing apart (shared with C12): a registration function indexes a contract or a denomination only after testing exactly that key as not yet registered, and those tests answer from their own index at exactly the key given — otherwise two pairs share a contract or a denomination and one pair's conversions pay out the other's escrow", 8)
 	guardKeyIsWriteKey(c, "C11/one-backing-per-contract-and-denomination", []string{"RegisterCoin", "AddCoin", "RegisterERC20", "UpdateTokenPairERC20"})
 	registeredTestsReadOwnIndex(c, "C11/one-backing-per-contract-and-denomination")
+	c.Rule("C11/burn-removes-supply", "the aggregate keeper is wired to the plain bank keeper, not to the burn-redirecting one that staking and governance use: the vouchers burned by a conversion leave the supply (otherwise voucher supply exceeds the escrowed tokens)", 1)
+	for _, cs := range c.Calls(c.F("app.NewTeleport"), "aggregate/keeper.NewKeeper") {
+		a := c.P.ArgExprs(cs)
+		ok := len(a) > 4 && a[4].IsCall("bank/keeper.NewBaseKeeper")
+		got := ""
+		if len(a) > 4 {
+			got = a[4].String()
+		}
+		c.Req(ok, "C11/burn-removes-supply", "aggregate keeper's bank keeper", cs.Ins.Pos(), "bank/keeper.NewBaseKeeper(…)", "the aggregate keeper is built on "+trunc(got)+", not on the plain bank keeper: BurnCoins of a conversion would be redirected instead of reducing supply")
+	}
 	c.Rule("C11/disabled-pair-stays-disabled", "no registry operation other than the toggle proposal changes a pair's enabled flag: AddCoin stores the loaded pair with only its denomination list extended (shared with C12)", 1)
 	addCoinKeepsPair(c, "C11/disabled-pair-stays-disabled")
 	c.Rule("C11/approval-scan-complete", "monitorApprovalEvent accepts a call result only after looking at every log: an Approval event behind another event is still refused", 1)
